@@ -207,6 +207,16 @@ def step (st : St) (toks : List String) : St × String :=
   | "sr" :: prim :: rest =>
     let (v, r) := sreadTok prim (rest.headD "0") st.sbuf
     ({ st with sbuf := r }, v ++ " rem=" ++ toString r.length)
+  | "reuse" :: mode :: junk :: pvs =>   -- a sink that held junk (Reset / BackUp / dirty buffer) writes what a fresh sink writes
+    let rec encAll : List String → Option Bytes
+      | [] => some []
+      | [_] => none
+      | p :: v :: rest => match encTok p v, encAll rest with
+        | some a, some b => some (a ++ b)
+        | _, _ => none
+    match Hex.ofHex junk, encAll pvs with
+    | some j, some e => (st, hex ((if mode == "prefix" then j else []) ++ e) ++ " ok")
+    | _, _ => (st, "bad-op")
   | "holdsink" :: pvs =>      -- held Bytes()/ToArray results re-checked after later encodings: evaluated on the implementation
     let rec ok : List String → Option Nat
       | [] => some 0
